@@ -257,6 +257,10 @@ def run(ctx):
     from .c02 import rule_id_lookup
     out, st_m = eval_status(ctx)
     scon = f"{st_m.module.relpath}::{st_m.qual}"
+    zero = out.pop("zero", None)
+    r2.check(zero == S("RUNNING"), scon + "::opaque-id", "job ids are opaque: the state of the local pool's task 0 is looked up like any other",
+             f"TrackingBackend.status(T) with T tracked as job id 0 (the first task of a fresh local pool, RUNNING there) gives {zero}: the id is judged by its truth value, so a "
+             "running target looks never submitted and is submitted again", st_m.where)
     want = {"T": S("RUNNING"), "U": S("UNKNOWN"), "nostate": S("UNKNOWN")}
     r2.check(out == want, scon, "state of the id tracked under the target's own name; UNKNOWN when untracked or without a record",
              f"TrackingBackend.status gives {{tracked+RUNNING: {out.get('T')}, untracked: {out.get('U')}, tracked without record: {out.get('nostate')}}}; "
